@@ -42,6 +42,7 @@ type c10Resp struct {
 	Body       string `json:"body"`
 	MidStall   bool   `json:"stall_in_the_middle_of_the_body,omitempty"`
 	APIVersion string `json:"api_version_header,omitempty"`
+	Location   string `json:"location_header,omitempty"` // redirects (TestC02Redirect only)
 }
 
 // served completely and as a JSON object?
@@ -203,6 +204,9 @@ func (s *c10Server) serve(cn net.Conn) {
 		ct = "text/html"
 	}
 	fmt.Fprintf(&hdr, "Content-Type: %s\r\n", ct)
+	if r.Location != "" {
+		fmt.Fprintf(&hdr, "Location: %s\r\n", r.Location)
+	}
 	if r.APIVersion != "" {
 		fmt.Fprintf(&hdr, "API-Version: %s\r\nOSType: linux\r\n", r.APIVersion)
 	}
@@ -629,5 +633,147 @@ func TestC10Command(t *testing.T) {
 				IP: [4]byte{127, 88, byte(rapid.IntRange(0, 255).Draw(t, "ip2")), byte(rapid.IntRange(2, 254).Draw(t, "ip3"))}}
 		},
 		Check: c10CmdCheck,
+	})
+}
+
+// ---------------------------------------------------------------- C02: a scanned server cannot send the scan elsewhere
+//
+// The target answers one of the probe's requests with a redirect that names another endpoint (a decoy that is not in
+// the target set and would serve a perfectly good JSON object). No connection may be made to the decoy, and nothing
+// the decoy serves may be reported as the target's.
+
+type c02RedirCase struct {
+	Scan     string  `json:"scan"`
+	Proto    string  `json:"proto"`
+	Which    string  `json:"redirected_request"` // primary | secondary | ping
+	Status   int     `json:"status"`
+	Form     string  `json:"location_form"` // same-scheme | other-scheme | scheme-relative | relative
+	BodyKind string  `json:"body_of_the_redirect"`
+	IP       [4]byte `json:"target_ip"`
+	Decoy    [4]byte `json:"decoy_ip"`
+}
+
+func c02RedirCheck(c c02RedirCase) *kit.Verdict {
+	v := &kit.Verdict{}
+	v.Label("scan=%s", c.Scan)
+	v.Label("form=%s", c.Form)
+	v.Label("which=%s", c.Which)
+	srv := c10GetServer()
+	plainPort, tlsPort := srv.plain.Addr().(*net.TCPAddr).Port, srv.tls.Addr().(*net.TCPAddr).Port
+	port, otherPort, otherProto := plainPort, tlsPort, "https"
+	if c.Proto == "https" {
+		port, otherPort, otherProto = tlsPort, plainPort, "http"
+	}
+	decoyIP := net.IP(c.Decoy[:]).String()
+	var loc string
+	switch c.Form {
+	case "same-scheme":
+		loc = fmt.Sprintf("%s://%s:%d/", c.Proto, decoyIP, port)
+	case "other-scheme":
+		loc = fmt.Sprintf("%s://%s:%d/", otherProto, decoyIP, otherPort)
+	case "scheme-relative":
+		loc = fmt.Sprintf("//%s:%d/", decoyIP, port)
+	default:
+		loc = "/moved/here"
+	}
+	targetObj := `{"cluster_name":"target","ID":"TARGET","Name":"target"}`
+	decoyObj := `{"cluster_name":"decoy","ID":"DECOY","Name":"decoy","Version":"6.6.6"}`
+	okObj := c10Resp{Status: 200, Framing: "length", Kind: "object", Body: targetObj}
+	redir := c10Resp{Status: c.Status, Framing: "length", Kind: c.BodyKind, Location: loc}
+	switch c.BodyKind {
+	case "object":
+		redir.Body = targetObj
+	case "nonjson":
+		redir.Body = "<html>moved</html>"
+	}
+	tc := c10Case{Scan: c.Scan, Proto: c.Proto, Primary: okObj, Second: okObj, Ping: c10Resp{Status: 200, Framing: "length", Kind: "empty", APIVersion: "1.41"}, TimeoutMs: 400, IP: c.IP}
+	switch c.Which {
+	case "primary":
+		tc.Primary = redir
+	case "secondary":
+		tc.Second = redir
+	default:
+		redir.APIVersion = "1.41"
+		tc.Ping = redir
+	}
+	dc := c10Case{Scan: c.Scan, Proto: c.Proto, Primary: c10Resp{Status: 200, Framing: "length", Kind: "object", Body: decoyObj}, Second: c10Resp{Status: 200, Framing: "length", Kind: "object", Body: decoyObj},
+		Ping: c10Resp{Status: 200, Framing: "length", Kind: "empty", APIVersion: "1.41"}, IP: c.Decoy}
+	tsc := &c10Script{c: tc, release: make(chan struct{})}
+	dsc := &c10Script{c: dc, release: make(chan struct{})}
+	srv.mu.Lock()
+	if srv.scripts[c.IP] != nil || srv.scripts[c.Decoy] != nil || c.IP == c.Decoy {
+		srv.mu.Unlock()
+		return &kit.Verdict{Inconclusive: true}
+	}
+	srv.scripts[c.IP], srv.scripts[c.Decoy] = tsc, dsc
+	srv.mu.Unlock()
+	defer func() {
+		close(tsc.release)
+		close(dsc.release)
+		srv.mu.Lock()
+		delete(srv.scripts, c.IP)
+		delete(srv.scripts, c.Decoy)
+		srv.mu.Unlock()
+	}()
+	T := 400 * time.Millisecond
+	var s scan.Scanner
+	if c.Scan == "elastic" {
+		s = elastic.NewScanner(c.Proto, elastic.WithDataTimeout(T))
+	} else {
+		s = docker.NewScanner(c.Proto, docker.WithDataTimeout(T))
+	}
+	type outcome struct {
+		res scan.Result
+		err error
+	}
+	och := make(chan outcome, 1)
+	go func() {
+		res, err := s.Scan(context.Background(), &scan.Request{DstIP: net.IP(c.IP[:]), DstPort: uint16(port)})
+		och <- outcome{res, err}
+	}()
+	var o outcome
+	select {
+	case o = <-och:
+	case <-time.After(30 * time.Second):
+		return v.Failf("%s probe of %v:%d still running after 30 s (redirect %d to %s)", c.Scan, net.IP(c.IP[:]), port, c.Status, loc)
+	}
+	time.Sleep(5 * time.Millisecond)
+	what := fmt.Sprintf("sx %s scan of the single target %s://%v:%d, whose answer to the %s request was '%d Location: %s'", c.Scan, c.Proto, net.IP(c.IP[:]), port, c.Which, c.Status, loc)
+	if got := dsc.requests(); len(got) > 0 {
+		return v.Failf("%s:\nthe scan connected to %s, which is not in the target set, and sent it %v", what, decoyIP, got)
+	}
+	if o.res != nil {
+		text := fmt.Sprintf("%+v", o.res)
+		if r, ok := o.res.(*elastic.ScanResult); ok {
+			text = fmt.Sprintf("%+v", *r)
+		}
+		if r, ok := o.res.(*docker.ScanResult); ok {
+			text = fmt.Sprintf("%+v %+v", r.Info, r.Version)
+		}
+		if strings.Contains(text, "decoy") || strings.Contains(text, "DECOY") || strings.Contains(text, "6.6.6") {
+			return v.Failf("%s:\nthe record carries data of the other endpoint: %s", what, clipN(text, 300))
+		}
+	}
+	v.NonTrivial = c.Form != "relative"
+	return v
+}
+
+func TestC02Redirect(t *testing.T) {
+	kit.Run(t, kit.Spec[c02RedirCase]{
+		Prop: "C02",
+		Rule: "elastic / docker probes (http, https) of one target (a drawn 127.x.y.z) whose scripted server answers one of the probe's requests (primary info, secondary, docker ping) with 301/302/303/307/308 and a Location naming a decoy endpoint on another address (same scheme, other scheme, scheme-relative) or a path on itself, with an empty / HTML / JSON-object body; the decoy would serve a good JSON object. Oracle: the decoy sees no request at all (peer addresses of the scan stay inside the target set) and no record carries the decoy's data. non-trivial: the Location names another host; distinct by case",
+		Gen: func(t *rapid.T) c02RedirCase {
+			c := c02RedirCase{Scan: rapid.SampledFrom([]string{"elastic", "elastic", "docker"}).Draw(t, "scan"), Proto: rapid.SampledFrom([]string{"http", "https"}).Draw(t, "proto"),
+				Status: rapid.SampledFrom([]int{301, 302, 303, 307, 308}).Draw(t, "status"), Form: rapid.SampledFrom([]string{"same-scheme", "same-scheme", "other-scheme", "scheme-relative", "relative"}).Draw(t, "form"),
+				BodyKind: rapid.SampledFrom([]string{"empty", "nonjson", "object"}).Draw(t, "body")}
+			c.Which = rapid.SampledFrom([]string{"primary", "primary", "secondary"}).Draw(t, "which")
+			if c.Scan == "docker" {
+				c.Which = rapid.SampledFrom([]string{"primary", "secondary", "ping"}).Draw(t, "which-docker")
+			}
+			c.IP = [4]byte{127, byte(rapid.IntRange(1, 250).Draw(t, "a")), byte(rapid.IntRange(0, 255).Draw(t, "b")), byte(rapid.IntRange(2, 254).Draw(t, "c"))}
+			c.Decoy = [4]byte{127, byte(rapid.IntRange(1, 250).Draw(t, "da")), byte(rapid.IntRange(0, 255).Draw(t, "db")), byte(rapid.IntRange(2, 254).Draw(t, "dc"))}
+			return c
+		},
+		Check: c02RedirCheck,
 	})
 }
